@@ -6,6 +6,8 @@ package c07
 import (
 	"encoding/json"
 	"fmt"
+	"os"
+	"os/exec"
 	"strings"
 
 	"github.com/Syuparn/pangaea/object"
@@ -20,8 +22,9 @@ func init() {
 		ID:    "C07",
 		Level: "fault_enumeration",
 		Rule: "a raise (explicit ValueErr through a nested call, a natural ZeroDivisionErr, and a natural StopIterErr outside iterator bodies) is injected at every evaluation slot of every construct (array/object/map literal incl. unpacking, range bounds, call callee/arguments/keyword/unpack/trailing function, receiver, chain argument, " +
-			"infix/prefix operands, if/else parts, guarded jumps, assignment, embedded string pieces, index expressions, keyword defaults, parameter expressions, _incBy/<=> hooks of an iterated range, the first step of an iterator consumed by each of 40 native Iterable methods, element k of n in the 9 non-thoughtful chain context x 3 call forms), " +
+			"infix/prefix operands, if/else parts, guarded jumps, assignment, embedded string pieces, index expressions, keyword defaults, parameter expressions, _incBy/<=> hooks of an iterated range, the first step of an iterator consumed by each of 33 native Iterable methods, element k of n in the 9 non-thoughtful chain context x 3 call forms), " +
 			"single level and nested two levels, in 6 contexts (top-level program, function body with pending defer, try step, thoughtful scalar chain, list-chain element, deferred expression); " +
+			"uncaught errors through the real command-line binary (script file, -e one-liner) for 5 error kinds x 14 messages (with %, quotes, backslashes, non-ASCII, empty): stdout stops at the raise, exit status non-zero, first stderr line is kind and message; " +
 			"oracle: nothing but pending-defer output after the marker, no assignment, injected kind+message reaches the handler/top, no error object stored inside a value; " +
 			"non-trivial = every case (each has exactly one injected fault); distinct = distinct (construct, slot, inner construct, inner slot, context, fault kind)",
 		Assumptions: []string{
@@ -39,6 +42,7 @@ nb := {|k| "m".p; 1 / 0}
 si := {|k| "m".p; []._iter.next}
 ff := {|a, b, k: 0, j: 0| [a, b, k, j]}
 id := {|x| x}
+cf := {|a, f| f(a)}
 oo := {m: m{|a, b| [a, b]}}
 x0 := 1
 `
@@ -65,7 +69,7 @@ var constructs = []construct{
 	{Name: "call-kwargs", Tmpl: "ff(§0, k: §1, §2, j: §3)", Slots: []string{"1", "2", "3", "4"}},
 	{Name: "call-unpack", Tmpl: "ff(*§0, **§1)", Slots: []string{"[1, 2]", "{k: 3}"}},
 	{Name: "call-callee", Tmpl: "§0(§1)", Slots: []string{"id", "1"}},
-	{Name: "call-trailing-func", Tmpl: "ff(§0) {|y| §1}", Slots: []string{"1", "2"}},
+	{Name: "call-trailing-func", Tmpl: "cf(§0) {|y| §1}", Slots: []string{"1", "2"}},
 	{Name: "propcall", Tmpl: "§0.m(§1, k: §2)", Slots: []string{"oo", "1", "2"}},
 	{Name: "propcall-chainarg-list", Tmpl: "§0@(§1){|e| e}", Slots: []string{"[[1, 2]]", "%{}"}},
 	{Name: "propcall-chainarg-reduce", Tmpl: "§0$(§1)+(§2)", Slots: []string{"[1, 2]", "0", "1"}},
@@ -113,6 +117,7 @@ var constructs = []construct{
 	{Name: "guarded-return", Tmpl: "return §1 if §0", Slots: []string{"true", "1"}, Stmt: true, Fn: true},
 	{Name: "return", Tmpl: "return §0", Slots: []string{"1"}, Stmt: true, Fn: true},
 	{Name: "guarded-raise", Tmpl: "raise §1 if §0", Slots: []string{"false", "1"}, Stmt: true, Fn: true},
+	{Name: "guarded-raise-taken", Tmpl: "raise §1 if §0", Slots: []string{"true", "ValueErr.new(\"r\")"}, Stmt: true, Fn: true},
 	{Name: "guarded-defer-cond", Tmpl: "defer 1 if §0", Slots: []string{"true"}, Stmt: true, Fn: true},
 	{Name: "guarded-yield", Tmpl: "yield §1 if §0", Slots: []string{"true", "1"}, Stmt: true, Fn: true},
 }
@@ -177,7 +182,7 @@ func consumerConstructs() []construct {
 	calls := []string{"A", "avg", "empty?", "first", "last", "max", "min", "std", "sum", "tally", "withI.A",
 		"acc({|a, b| b}).A", "all? {|x| true}", "any? {|x| false}", "exclude {|x| false}", "find {|x| false}", "keyBy {|x| x}", "lazyMap({|x| x}).A", "map {|x| x}",
 		"reduce({|a, b| b})", "select {|x| true}", "until({|x| false}).A", "while({|x| true}).A", "doUntil({|x| false}).A", "doWhile({|x| true}).A",
-		"append(9).A", "prepend(9).A", "chain([9]).A", "chunk(2).A", "index(5)", "indices(5)", "rindex(5)", "zip([1, 2]).A", "len", "sort", "uniq", "rev", "join(\"\")", "has?(5)", "flatten"}
+		"append(9).A", "prepend(9).A", "chain([9]).A", "chunk(2).A", "index(5)", "indices(5)", "rindex(5)", "zip([1, 2]).A"}
 	var cs []construct
 	for _, call := range calls {
 		name := call
@@ -382,6 +387,9 @@ func judge(c *core.Ctx, t tcase, o panrun.Obs, assigned bool) {
 	if class == "-" {
 		c.Outcome(t.Ctx + ":fault-not-reached")
 		c.Counter("fault_not_reached", 1)
+		if t.Inner < 0 {
+			c.Counter("fault_not_reached@"+siteOf(t.OuterName, t.Slot), 1)
+		}
 		return
 	}
 	c.Outcome(t.Ctx + ":" + o.Kind)
@@ -472,13 +480,13 @@ func gen(thorough bool, emit func(tcase)) {
 						ctxs = contexts
 					}
 					for _, ctx := range ctxs {
+						if oc.Name == "embedded-str" && strings.ContainsAny(fill(ic, ic.Slots), "}\"") {
+							continue // `}` and quotes cannot be written inside #{...} (lexer restriction, not this property)
+						}
 						if deep && (ctx == "fn" || ctx == "try") {
 							emit(tcase{Outer: oi, OuterName: oc.Name, Slot: s, Inner: ii, InnerName: ic.Name, InnerSlot: is, Ctx: ctx, Fault: "nb"})
 						}
 						tc := tcase{Outer: oi, OuterName: oc.Name, Slot: s, Inner: ii, InnerName: ic.Name, InnerSlot: is, Ctx: ctx, Fault: "bm"}
-						if oc.Name == "embedded-str" && strings.ContainsAny(fill(ic, ic.Slots), "}\"") {
-							continue // `}` and quotes cannot be written inside #{...} (lexer restriction, not this property)
-						}
 						emit(tc)
 					}
 				}
@@ -521,6 +529,9 @@ func run(c *core.Ctx) {
 		}
 		judge(c, t, o, false)
 	})
+	cs := cliCases()
+	tk.Sharded(c, len(cs), func(i int) { judgeCLI(c, cs[i]) })
+	c.Note("command_line_cases_total", len(cs))
 	c.Note("thunk_cases_total", total)
 	c.Note("program_cases_total", len(progCases))
 	// top-level programs: one parse + evaluation each, in an own scope (checks the assignment too)
@@ -537,7 +548,102 @@ func run(c *core.Ctx) {
 	})
 }
 
+// ---------------------------------------------------------------- uncaught errors through the real command line
+
+type cliCase struct {
+	Mode string `json:"mode"` // "cli"
+	Kind string `json:"kind"`
+	Msg  string `json:"msg"` // Pangaea string literal body (escapes as written)
+	Want string `json:"want"`
+	How  string `json:"how"` // file | oneliner
+}
+
+var cliMsgs = [][2]string{{"plain", "plain"}, {"100% full", "100% full"}, {"%d items, %s and %v", "%d items, %s and %v"}, {"50%", "50%"}, {"%", "%"}, {"%%", "%%"}, {"%!x(MISSING)", "%!x(MISSING)"},
+	{`a\\b`, `a\b`}, {`q\"q`, `q"q`}, {"日本語 %語", "日本語 %語"}, {"", ""}, {" lead and trail ", " lead and trail "}, {"{curly} [square] <angle>", "{curly} [square] <angle>"}, {"$1 `tick` 'q'", "$1 `tick` 'q'"}}
+
+func cliCases() []cliCase {
+	var cs []cliCase
+	for _, k := range []string{"ValueErr", "Err", "TypeErr", "AssertionErr", "ZeroDivisionErr"} {
+		for _, m := range cliMsgs {
+			for _, how := range []string{"file", "oneliner"} {
+				cs = append(cs, cliCase{Mode: "cli", Kind: k, Msg: m[0], Want: k + ": " + m[1], How: how})
+			}
+		}
+	}
+	return cs
+}
+
+func (t cliCase) src() string {
+	return "\"before\".p\nf := {|| raise " + t.Kind + ".new(\"" + t.Msg + "\")}\nf()\n\"after\".p\n"
+}
+
+// runCLI runs the program with the real command-line binary built from the tree under test.
+func runCLI(t cliCase) (stdout, stderr string, code int, err error) {
+	cli := os.Getenv("PANMC_CLI")
+	if cli == "" {
+		return "", "", 0, fmt.Errorf("PANMC_CLI is not set")
+	}
+	var cmd *exec.Cmd
+	switch t.How {
+	case "file":
+		f, e := os.CreateTemp(os.Getenv("PANMC_SCRATCH"), "c07cli*.pangaea")
+		if e != nil {
+			return "", "", 0, e
+		}
+		defer os.Remove(f.Name())
+		f.WriteString(t.src())
+		f.Close()
+		cmd = exec.Command("timeout", "30", cli, f.Name())
+	case "oneliner":
+		cmd = exec.Command("timeout", "30", cli, "-e", t.src())
+	default:
+		cmd = exec.Command("timeout", "30", cli)
+		cmd.Stdin = strings.NewReader(t.src())
+	}
+	var so, se strings.Builder
+	cmd.Stdout, cmd.Stderr = &so, &se
+	e := cmd.Run()
+	if ee, ok := e.(*exec.ExitError); ok {
+		code = ee.ExitCode()
+	} else if e != nil {
+		return "", "", 0, e
+	}
+	return so.String(), se.String(), code, nil
+}
+
+func judgeCLI(c *core.Ctx, t cliCase) {
+	c.Eval(1)
+	c.Validated(1)
+	c.Nontrivial(1)
+	so, se, code, err := runCLI(t)
+	if err != nil {
+		c.HarnessError("cannot run the command line: %v", err)
+		return
+	}
+	first := strings.SplitN(se, "\n", 2)[0]
+	c.Outcome("cli:" + t.How)
+	class := ""
+	switch {
+	case so != "before\n":
+		class = "continued-after-raise"
+	case code == 0:
+		class = "error-dropped"
+	case first != t.Want:
+		class = "wrong-error"
+	}
+	if class == "" {
+		return
+	}
+	c.Violation(core.Violation{Key: "command-line/" + t.How + "/uncaught/" + class, Case: core.JSON(t), Desc: strings.ReplaceAll(t.src(), "\n", "; "), Expected: fmt.Sprintf("stdout %q, exit != 0, stderr starting %q", "before\n", t.Want),
+		Observed: fmt.Sprintf("stdout %q, exit %d, stderr starting %q", so, code, first), Repro: t.src()})
+}
+
 func replay(c *core.Ctx, raw json.RawMessage) {
+	var ct cliCase
+	if json.Unmarshal(raw, &ct) == nil && ct.Mode == "cli" {
+		judgeCLI(c, ct)
+		return
+	}
 	var t tcase
 	if err := json.Unmarshal(raw, &t); err != nil {
 		c.HarnessError("bad case: %v", err)
